@@ -19,7 +19,7 @@ func init() {
 	fw.Register(&fw.Property{
 		ID:    "C06",
 		Level: "exploration",
-		Rule: "cases = PRNG histories of Put/Delete (repeated keys, deletes of absent keys, re-puts, empty and binary values, unicode and empty-string keys) by 1-4 writers with interleaved replication (random delivery, drops, duplicates, bursts) and steps where a local Put races the merge of an announcement on the same replica while a schedule-point handler at index.after-values holds one index rebuild until another has finished. The oracle runs after every step on every replica. " +
+		Rule: "cases = PRNG histories of Put/Delete (repeated keys, deletes of absent keys, re-puts, empty and binary values, unicode and empty-string keys) by 1-4 writers with interleaved replication (random delivery, drops, duplicates, bursts, deliveries during which a block fetch fails and is retried by a later delivery) and steps where a local Put races the merge of an announcement on the same replica while a schedule-point handler at index.after-values holds one index rebuild until another has finished. The oracle runs after every step on every replica. " +
 			"distinct = hash(step script); non-trivial = >= 2 writers touched one key or a delete and a put of one key are both in the log",
 		Assumptions: []string{"several goroutines calling Put on one replica are C17's case", "simulated network (see DESIGN 2.1)"},
 		Cases:       func(tier string, seed int64) []fw.Case { return lwwCases(tier, seed, tKV, 60, 500) },
@@ -147,7 +147,7 @@ func lwwRun(c fw.Case, typ string) fw.Verdict {
 	}
 	r := &Runner{E: e, Rng: rng, Cfg: ScenCfg{
 		Type: typ, NPeers: np, Writers: wr, NSteps: c.Int("steps", 20), Keys: keys,
-		WWrite: 40, WDeliver: 25, WDeliverAll: 4, WDrop: 5, WDup: 5, WSync: 4, WBurst: 6, WConc: 14, WCut: 2, WHeal: 3,
+		WWrite: 40, WDeliver: 25, WDeliverAll: 4, WDrop: 5, WDup: 5, WSync: 4, WBurst: 6, WConc: 14, WCut: 2, WHeal: 3, WFaultyDeliver: 5, WHoleHeal: 4,
 		CheckEvery: 1,
 	}}
 	ih := &indexHolder{}
